@@ -219,8 +219,13 @@ def run_case(case, res):
             for k in range(d):
                 ex *= 1.5 if mi[k] == 0 else 0.5
             exact.append(ex)
+        # quadrature is linear: the same polynomials at a magnitude of 1e-9 / 1e-12 / 1e6 come out scaled by that factor
+        fscale = 1.0 if rng.random() < 0.8 else rng.choice([1e-9, 1e-12, 1e6])
+        if fscale != 1.0:
+            comps = [(lambda q, g_=g_: fscale * g_(q)) for g_ in comps]
+            res.count("integrand_magnitude_not_one")
         f = hooks.VFunction(comps)
-        val = np.atleast_1d(np.asarray(grid.integrate(f, lv, hooks.typed(s, mode), hooks.typed(e, mode)), dtype=float))
+        val = np.atleast_1d(np.asarray(grid.integrate(f, lv, hooks.typed(s, mode), hooks.typed(e, mode)), dtype=float)) / fscale
         if nodal or family == "TrapezoidalNB":
             scale = float(np.sum(np.abs(w))) * 1.5 ** d
         else:
@@ -296,3 +301,5 @@ def crash_sig(case, ex, where, tb):
     rng = random.Random(case["seed"])
     family = rng.choice(FAMILIES)
     return "C08_crash:%s:%s@%s" % (family, type(ex).__name__, where)
+
+RULE += (" Integrands also at magnitudes 1e-12, 1e-9 and 1e6 (quadrature is linear).")
